@@ -32,6 +32,8 @@ import RosuModel.Model.SkillWire
 import RosuModel.Model.TaikoPreWire
 import RosuModel.Model.PipelineWire
 import RosuModel.Model.PipelineManiaModsWire
+import RosuModel.Model.CurveWire
+import RosuModel.Model.PipelineCurveWire
 
 open Rosu
 
@@ -118,6 +120,12 @@ def handle (line : String) : String :=
   | "PIPE" :: "osu" :: args => PipelineOsu.Wire.handlePIPEO args
   | ["PIPE", "catch", version, sm, tr, hr, refl, cs, ar, clock, conv, take, gidx, objs] =>
     PipelineCatch.Wire.handlePIPEC version sm tr hr refl cs ar clock conv take gidx objs
+  | ["PIPE", "catchcurve", version, sm, tr, hr, refl, cs, ar, clock, conv, take, gidx, objs] =>
+    PipelineCatch.Wire.handlePIPECC version sm tr hr refl cs ar clock conv take gidx objs
+  | ["OSLDC", version, sm, tr, slider, expected, cps, ltt] =>
+    PipelineCatch.Wire.handleOSLDC version sm tr slider expected cps ltt
+  | ["CURVE", mode, cps, expected, prev, progress] => Curve.Wire.handleCURVE mode cps expected prev progress
+  | ["CURVES", mode, sliders, progress] => Curve.Wire.handleCURVES mode sliders progress
   | _ => "bad-op"
 
 partial def loop (h : IO.FS.Stream) (out : IO.FS.Stream) : IO Unit := do
